@@ -19,6 +19,9 @@ func (g *rangeGen) generate() {
 
 	g.genComment()
 	g.P("func (x *", g.typeName, ") Range(f func(", protoreflectPkg.Ident("FieldDescriptor"), ", ", protoreflectPkg.Ident("Value"), ") bool) {")
+	g.P("if x == nil {")
+	g.P("x = new(", g.typeName, ") // a nil message reads as an empty one")
+	g.P("}")
 	for _, field := range g.message.Fields {
 		g.genField(field)
 	}
